@@ -3,9 +3,17 @@
 RT half (E3, shares the C05 driver): routine bodies send messages, bundles
 and nested bundles with latencies {None, -1, 0, 0.25}; every schedule within
 the bound; captured datagrams are decoded with the independent OSC codec.
-NRT half (E1): the same programs; main.process().list / .raw."""
+NRT half (E1): the same programs; main.process().list / .raw.
 
+Audit widening (programs_wide): further latencies, bundle shapes (general
+statement ['sx', via, template, tag]), entry points (send_clumped_bundles,
+Server.bind, NetAddr.sync, bundles inside messages), function tasks, inner
+routines, a second plain thread, AppClock in RT, NRT tail times.  The
+interpreter extension lives in this module (Run7), mc/rtprog.py is shared."""
+
+import copy
 import struct
+from fractions import Fraction
 
 from mc import core
 from mc.engines import progenum
@@ -28,6 +36,15 @@ def REPLAY_MODE(v):
 def ntp(elapsed):
     """Exact timetag of elapsed seconds (dyadic) in RT-virtual mode."""
     return int((T0 + NTP_OFFSET + elapsed) * 2 ** 32)
+
+
+def ntp_sum(t, L):
+    """Timetag of t + L for arbitrary (also non-dyadic) floats: the exact
+    rational sum of the two doubles, truncated.  The library adds the two
+    doubles first (one rounding, < 2^-20 LSB): covered by the 2 LSB
+    tolerance.  Equals ntp(t + L) for dyadic values."""
+    return int((Fraction(t) + Fraction(L)) * 2 ** 32) + \
+        (int(T0) + NTP_OFFSET) * 2 ** 32
 
 
 # ---------------------------------------------------------------------------
@@ -54,6 +71,8 @@ def make_prog(clock, items, yields, outside=None, second=None):
             return ['send', it[1], tag[0]]
         if it[0] == 'sendm':
             return ['sendm', tag[0]]
+        if it[0] == 'sx':
+            return ['sx', it[1], fill(it[2], tag[0]), tag[0]]
         return ['sendb', it[1], it[2], tag[0]]
     body = []
     for i, it in enumerate(items):
@@ -84,6 +103,13 @@ def make_prog(clock, items, yields, outside=None, second=None):
     return {'clocks': clocks, 'routines': routines, 'funcs': {},
             'actors': {'main': main},
             'horizon': 2.0 * sum(yields) + 3.0}
+
+
+def fill(shape, tag):
+    """Bundle / message template -> plain data: 'T' becomes the tag."""
+    if isinstance(shape, (list, tuple)):
+        return [fill(x, tag) for x in shape]
+    return tag if shape == 'T' else shape
 
 
 A3 = [('send', None), ('send', 0), ('send', 0.25), ('sendm',),
@@ -202,6 +228,230 @@ def programs(tier, mode):
 
 
 # ---------------------------------------------------------------------------
+# Wider families (audit): latencies beyond {None,-1,0,0.25}, bundle shapes
+# beyond one nested bundle, other entry points, function tasks, inner
+# routines, AppClock in RT, tail times
+# ---------------------------------------------------------------------------
+
+# below zero but above -1, float zero, int and float one, non-dyadic (the
+# default server latency is 0.2), long, tiny, very long
+WIDE = [-0.25, 0.0, 1, 1.0, 0.1, 0.2, 3.0, 2.0 ** -20, 100.0]
+WPAIRS = [(0.1, 0.1), (0.1, 0.2), (0.2, 0.1), (1, 1.0), (1.0, 1), (0, 0.1),
+          (0.1, 0), (-1, 0.25), (-0.25, 0), (None, -1), (0, -1),
+          (0.25, -0.25), (3.0, 100.0), (100.0, 3.0), (0.0, 0), (1, 0.25),
+          (0.25, 1), (2.0 ** -20, 0), (0, 2.0 ** -20)]
+P_LATS = [None, -1, 0, 0.25]
+C_LATS = [None, -1, 0, 0.25, 0.5]
+
+
+def shapes():
+    """(via, template) of the general send statement; every message of one
+    send carries the tag 'T' as first argument."""
+    out = []
+    for P in P_LATS:
+        for C in C_LATS:
+            for D in C_LATS:
+                # three levels; two nested bundles side by side
+                out.append(('bundle', [P, ['/t', 'T'],
+                                       [C, ['/u', 'T'], [D, ['/v', 'T']]]]))
+                out.append(('bundle', [P, ['/t', 'T'], [C, ['/u', 'T']],
+                                       [D, ['/v', 'T']]]))
+            # nested bundle first; nested bundle only
+            out.append(('bundle', [P, [C, ['/u', 'T']], ['/t', 'T']]))
+            out.append(('bundle', [P, [C, ['/u', 'T']]]))
+            out.append(('clumped', [P, ['/t', 'T'], [C, ['/u', 'T']]]))
+            # a bundle inside a message (completion message) that does not
+            # precede the enclosing bundle
+            if nested_rule(P, C) is False:
+                out.append(('bundle', [P, ['/t', 'T', [C, ['/u', 'T']]]]))
+                out.append(('bundle', [P, ['/t', 'T', [C, ['/u', 'T']]],
+                                       [C, ['/v', 'T']]]))
+        out.append(('clumped', [P, ['/t', 'T']]))
+        out.append(('clumped', [P, ['/t', 'T'], ['/u', 'T']]))
+        out.append(('bind', [P, ['/t', 'T'], ['/u', 'T']]))
+        out.append(('bundle', [P, ['/t', 'T', ['/u', 'T']]]))
+    for C in C_LATS + [0.2, 1]:
+        out.append(('msg', [None, ['/t', 'T', [C, ['/u', 'T']]]]))
+        out.append(('msg', [None, ['/t', 'T', [C, ['/u', 'T'],
+                                               [C, ['/v', 'T']]]]]))
+    out.append(('msg', [None, ['/t', 'T', ['/u', 'T']]]))
+    out.append(('msg', [None, ['/t', 'T', ['/u', 'T', [0.25, ['/v', 'T']]]]]))
+    for L in (0.2, 0.1, 1):
+        out.append(('bind', [L, ['/t', 'T']]))
+        out.append(('clumped', [L, ['/t', 'T']]))
+    return out
+
+
+def func_prog(cid, sends0, sends1, routine=None):
+    """A plain function scheduled at 0.5 beats that re-schedules itself
+    once after 0.25 and sends at both calls (tags from 61 / 71)."""
+    def stmts(items, tag):
+        out = []
+        for it in items:
+            tag += 1
+            if it[0] == 'send':
+                out.append(['send', it[1], tag])
+            elif it[0] == 'sendm':
+                out.append(['sendm', tag])
+            elif it[0] == 'sx':
+                out.append(['sx', it[1], fill(it[2], tag), tag])
+            else:
+                out.append(['sendb', it[1], it[2], tag])
+        return out
+    if routine:
+        p = make_prog(routine[0], routine[1], routine[2])
+    else:
+        p = make_prog('s', [], [])
+        p['routines'] = {}
+        p['actors']['main'] = []
+    p['clocks'][cid] = c05.CLOCKSPEC[cid]
+    p['funcs'] = {'f0': {'returns': [0.25, None],
+                         'sends': {'0': stmts(sends0, 60),
+                                   '1': stmts(sends1, 70)}}}
+    p['actors']['main'].append(['sched', cid, 0.5, 'f0'])
+    p['horizon'] = 4.0
+    return p
+
+
+def programs_wide(mode):
+    """-> (programs every run explores, programs of which the quick tier
+    explores a seed-selected slice)."""
+    core_, extra = [], []
+    clocks = ['s', 't2'] if mode == 'rt' else ['s', 't2', 'a']
+    # 1. latencies
+    for c in clocks:
+        for L in WIDE:
+            core_.append(make_prog(c, [('send', 0), ('send', L)], [0.25]))
+        for L, L2 in WPAIRS:
+            core_.append(make_prog(c, [('send', 0), ('sendb', L, L2)],
+                                   [0.25]))
+    for L in WIDE:
+        core_.append(make_prog('s', [('send', 0)], [0.25],
+                               outside=[(0.125 if mode == 'rt' else 0,
+                                         ('send', L))]))
+    # 2. bundle shapes and entry points: in a routine at a logical time > 0,
+    # outside routines, in a function task
+    sh = shapes()
+    for via, b in sh:
+        core_.append(make_prog('s', [('send', 0), ('sx', via, b)], [0.25]))
+        for c in clocks[1:]:
+            extra.append(make_prog(c, [('send', 0), ('sx', via, b)], [0.25]))
+        extra.append(make_prog('s', [('send', 0)], [0.25],
+                               outside=[(0.125 if mode == 'rt' else 0,
+                                         ('sx', via, b))]))
+        extra.append(func_prog('s', [('send', 0.25)], [('sx', via, b)]))
+    # 3. function tasks ("outside routines" at a time > 0): plain sends on
+    # every clock, alone and next to a routine whose bundles tie with theirs
+    fa = [('send', None), ('send', -1), ('send', 0), ('send', 0.25),
+          ('send', 0.2), ('sendm',), ('sendb', 0, 0.5), ('sendb', 0.25, 0.25),
+          ('sendb', None, 0), ('sendb', 0.25, 0)]
+    for c in (['s', 't2'] if mode == 'rt' else ['s', 't2', 'a']):
+        for a in fa:
+            for b in fa[:7]:
+                (core_ if c == 's' else extra).append(
+                    func_prog(c, [a], [b, ('send', 0)]))
+    for a in fa[:7]:
+        for b in (('send', 0.5), ('send', 0.25), ('sendm',)):
+            core_.append(func_prog(
+                's', [a, ('send', 0.5)], [('send', 0.25)],
+                routine=('s', [('send', 0.25), b, ('send', 0)],
+                         [0.25, 0.25])))
+    # 4. an inner routine stepped with next() by a clock driven one sends
+    # at the caller's logical time
+    ia = [('send', 0), ('send', 0.25), ('send', None), ('sendm',),
+          ('sendb', 0, 0.5), ('sendb', None, None), ('send', 0.2)]
+    for c in clocks:
+        for a in ia:
+            for b in ia:
+                p = make_prog(c, [a, b], [])
+                st = p['routines']['r0']
+                p['routines']['n0'] = [st[0], ['yieldv', 'x'], st[1],
+                                       ['yieldv', 'y']]
+                p['routines']['r0'] = [['yield', 0.25], ['next', 'n0'],
+                                       ['yield', 0.5], ['next', 'n0']]
+                p['horizon'] = 4.5
+                (core_ if c == 's' else extra).append(p)
+    if mode == 'rt':
+        # 4b. NetAddr.sync(latency=L, elements=...) from a routine
+        for c in clocks:
+            for L in P_LATS + [0.2, 1]:
+                for b in ([L, ['/t', 'T']], [L, ['/t', 'T'], ['/u', 'T']]):
+                    (core_ if c == 's' else extra).append(make_prog(
+                        c, [('send', 0), ('sx', 'sync', b)], [0.25]))
+        # 4c. a plain thread other than the main thread sends while a
+        # routine plays ("outside routines": the current time + L)
+        xa = [('send', None), ('send', -1), ('send', 0), ('send', 0.25),
+              ('send', 0.2), ('sendm',), ('sendb', 0, 0.5),
+              ('sendb', None, 0), ('sendb', 0.25, 0),
+              ('sx', 'bundle', [0, ['/t', 'T', [0.25, ['/u', 'T']]]]),
+              ('sx', 'msg', [None, ['/t', 'T', [0.25, ['/u', 'T']]]]),
+              ('sx', 'bind', [0.25, ['/t', 'T'], ['/u', 'T']])]
+        for a in xa:
+            for dt in (0.125, 0.375):
+                p = make_prog('s', [('send', 0)], [0.25],
+                              outside=[(dt, a)])
+                m = p['actors']['main']
+                p['actors'] = {'main': m[:1], 'X': m[1:]}
+                (core_ if dt == 0.125 else extra).append(p)
+        # 4d. the other entry points from a routine stepped by hand and from
+        # a clock driven one whose body takes physical time before it sends
+        hs = [('sx', 'msg', [None, ['/t', 'T', [0, ['/u', 'T']]]]),
+              ('sx', 'msg', [None, ['/t', 'T', [0.25, ['/u', 'T']]]]),
+              ('sx', 'bundle', [0, ['/t', 'T', [0.25, ['/u', 'T']]]]),
+              ('sx', 'bundle', [0.25, ['/t', 'T'],
+                                [0.25, ['/u', 'T'], [0.5, ['/v', 'T']]]]),
+              ('sx', 'clumped', [0, ['/t', 'T']]),
+              ('sx', 'clumped', [0.25, ['/t', 'T'], [0.5, ['/u', 'T']]]),
+              ('sx', 'bind', [0, ['/t', 'T']]),
+              ('sx', 'bind', [0.25, ['/t', 'T'], ['/u', 'T']]),
+              ('sx', 'sync', [0, ['/t', 'T']]),
+              ('sx', 'sync', [0.25, ['/t', 'T']]),
+              ('send', 0.2), ('send', 1), ('sendb', 0.1, 0.2)]
+        for a in hs:
+            for blk in (0.25, 1.0):
+                p = make_prog('s', [a], [])
+                body = p['routines']['r0']
+                p['routines']['r0'] = [['block', blk]] + body + \
+                    [['yieldv', 'x']]
+                p['actors']['main'] = [['sleep', 0.5], ['next', 'r0']]
+                p['handstep'] = 0.5
+                p['horizon'] = 4.0
+                q = make_prog('s', [a], [])
+                q['routines']['r0'] = [['yield', 0.5], ['block', blk]] + \
+                    q['routines']['r0']
+                q['horizon'] = 5.0
+                if blk == 0.25:
+                    core_ += [p, q]
+                else:
+                    extra += [p, q]
+        # 5. AppClock: its logical time follows late wake-ups by design; the
+        # timetag is the logical time the routine observes plus L
+        aa = [('send', None), ('send', -1), ('send', 0), ('send', 0.25),
+              ('sendm',), ('sendb', 0, 0.5), ('sendb', 0.25, 0),
+              ('send', 0.2)]
+        for a in aa:
+            for b in aa:
+                for d in (0, 0.25):
+                    p = make_prog('a', [a, b], [d])
+                    p['observed_base'] = True
+                    (core_ if d else extra).append(p)
+    else:
+        # 6. tail times
+        ta = [('send', 0), ('send', 0.25), ('sendm',), ('send', 1.0)]
+        for tail in (0, 0.25, 2, 0.1):
+            for c in clocks:
+                for a in ta:
+                    for b in ta:
+                        p = make_prog(c, [a, b], [0.25])
+                        p['tail'] = tail
+                        core_.append(p)
+                    p = func_prog(c, [a], [('send', 0)])
+                    p['tail'] = tail
+                    core_.append(p)
+    return core_, extra
+
+
+# ---------------------------------------------------------------------------
 # Reference: what every send must put on the wire / in the score
 # ---------------------------------------------------------------------------
 
@@ -211,29 +461,126 @@ def expected_sends(prog, mode):
     if prog.get('handstep') is not None:
         sends = []
         for st in prog['routines']['r0']:
-            if st[0] in ('send', 'sendm', 'sendb'):
+            if st[0] in ('send', 'sendm', 'sendb', 'sx'):
                 sends.append(_send(st, 'r0', prog['handstep'], True))
                 if sends[-1]['refused']:
                     break
         return sends
     exp_t = c05.expected(prog)
+    inner = inner_routines(prog)
     sends = []
     for rid, stmts in prog['routines'].items():
         k = 0
-        for st in stmts:
-            if st[0] == 'yield':
+        for i, st in enumerate(stmts):
+            if st[0] == 'yield' or (st[0] == 'yieldv' and rid in inner):
                 k += 1
-            elif st[0] in ('send', 'sendm', 'sendb', 'sendbo'):
+            elif st[0] in SENDOPS:
                 sends.append(_send(st, rid, exp_t[rid][k][0], True))
                 if sends[-1]['refused']:
                     break     # the exception ends the routine
-    t = 0.0
-    for st in prog['actors']['main']:
-        if st[0] == 'sleep':
-            t += st[1] if mode == 'rt' else 0.0
-        elif st[0] in ('send', 'sendm', 'sendb'):
-            sends.append(_send(st, 'main', t, False))
+                if sends[-1]['refused'] is None:
+                    # undecided refusal: only as the last statement
+                    assert i == len(stmts) - 1 and rid not in inner, prog
+    for actor, ops in prog['actors'].items():
+        if actor != 'main' and mode != 'rt':
+            continue          # NRT runs the main actor only
+        t = 0.0
+        for st in ops:
+            if st[0] == 'sleep':
+                t += st[1] if mode == 'rt' else 0.0
+            elif st[0] in ('send', 'sendm', 'sendb', 'sx'):
+                sends.append(_send(st, actor, t, False))
+    # plain functions scheduled on a clock are "outside routines"
+    ft = func_times(prog)
+    for fid, spec in prog.get('funcs', {}).items():
+        for k, t in enumerate(ft.get(fid, [])):
+            for st in spec.get('sends', {}).get(str(k), []):
+                sends.append(dict(_send(st, fid, t, False), functask=True))
     return sends
+
+
+SENDOPS = ('send', 'sendm', 'sendb', 'sendbo', 'sx')
+
+
+def inner_routines(prog):
+    """Routines stepped with next() by another routine (they run at the
+    caller's logical time; their 'yieldv' statements end a step)."""
+    return {st[1] for stmts in prog['routines'].values() for st in stmts
+            if st[0] == 'next'}
+
+
+def func_times(prog):
+    """{fid: [seconds of call 0, call 1, ...]} of the function tasks the
+    main actor schedules at time zero (delta and returned deltas are in the
+    clock's beats)."""
+    out = {}
+    for op in prog['actors']['main']:
+        if op[0] == 'sched' and op[3] in prog.get('funcs', {}):
+            tempo = c05.TEMPO[op[1]]
+            b = op[2]
+            times = [b / tempo]
+            for r in prog['funcs'][op[3]].get('returns', [None]):
+                if isinstance(r, (int, float)) and not isinstance(r, bool):
+                    b += r
+                    times.append(b / tempo)
+                else:
+                    break
+            out[op[3]] = times
+    return out
+
+
+def expected_end(prog):
+    """Last logical instant at which anything runs in the NRT run."""
+    exp_t = c05.expected(prog)
+    inner = inner_routines(prog)
+    end = 0.0
+    for rid, stmts in prog['routines'].items():
+        if rid in inner or rid not in exp_t:
+            continue
+        k = 0
+        end = max(end, exp_t[rid][0][0])
+        for st in stmts:
+            if st[0] == 'yield':
+                k += 1
+                end = max(end, exp_t[rid][k][0])
+            elif st[0] in SENDOPS and _send(st, rid, 0.0, True)['refused']:
+                break
+    for times in func_times(prog).values():
+        end = max([end] + times)
+    return end
+
+
+def is_imm(L):
+    """None or below zero = immediately."""
+    return L is None or L < 0
+
+
+def nested_rule(P, C):
+    """Nested bundle with latency C inside a bundle with latency P.
+    True: precedes its parent, must be refused; False: must be accepted;
+    None: both mean "immediately", the statement does not decide."""
+    if P is None:
+        return False
+    if P >= 0:
+        return C is None or C < P
+    if C is not None and C >= 0:
+        return False
+    return None
+
+
+def sx_refusal(b):
+    """nested_rule over every parent/child pair of a bundle template."""
+    res = []
+    for e in b[1:]:
+        if isinstance(e[0], str):
+            continue
+        res.append(nested_rule(b[0], e[0]))
+        res.append(sx_refusal(e))
+    if any(r is True for r in res):
+        return True
+    if any(r is None for r in res):
+        return None
+    return False
 
 
 def _send(st, who, t, in_routine):
@@ -243,18 +590,88 @@ def _send(st, who, t, in_routine):
         d.update(L=st[1], tag=st[2], refused=False)
     elif st[0] == 'sendm':
         d.update(L=None, tag=st[1], refused=False)
+    elif st[0] == 'sx':
+        via, b = st[1], st[2]
+        d.update(via=via, b=b, tag=st[3], L=b[0])
+        # messages carry no time of their own; lists inside messages
+        # (completion messages) are not bundle elements
+        d['refused'] = False if via in ('msg', 'bind', 'sync') \
+            else sx_refusal(b)
     else:
         L, L2 = st[1], st[2]
         d.update(L=L, L2=L2, tag=st[3])
         # nested bundles may not precede their parent (OSC 1.0)
-        d['refused'] = L is not None and (L2 is None or L > L2)
+        d['refused'] = nested_rule(L, L2)
     return d
+
+
+ANY_INT = '<any int>'
+
+
+def sx_struct(b, stamp):
+    """Decoded form a bundle/message template must have on the wire;
+    stamp(latency) -> timetag.  A list inside a message travels as a blob
+    holding the encoded message / bundle."""
+    def msg(m):
+        args = []
+        for a in m[1:]:
+            if isinstance(a, list):
+                args.append({'blob': msg(a) if isinstance(a[0], str)
+                             else bun(a)})
+            else:
+                args.append(a)
+        return {'type': 'message', 'address': m[0], 'args': args}
+
+    def bun(x):
+        return {'type': 'bundle', 'timetag': stamp(x[0]),
+                'elements': [msg(e) if isinstance(e[0], str) else bun(e)
+                             for e in x[1:]]}
+    return msg(b) if isinstance(b[0], str) else bun(b)
+
+
+def sx_compare(exp, got, tol, level='top'):
+    """-> [(what, expected, observed)], what in structure|top|nested|blob."""
+    if exp['type'] != got.get('type'):
+        return [('structure', exp['type'], got.get('type'))]
+    out = []
+    if exp['type'] == 'bundle':
+        if abs(got['timetag'] - exp['timetag']) > tol:
+            out.append((level, exp['timetag'], got['timetag']))
+        if len(exp['elements']) != len(got['elements']):
+            return out + [('structure', len(exp['elements']),
+                           len(got['elements']))]
+        sub = 'nested' if level == 'top' else level
+        for e, g in zip(exp['elements'], got['elements']):
+            out += sx_compare(e, g, tol, sub)
+        return out
+    if exp['address'] != got['address'] or \
+            len(exp['args']) != len(got['args']):
+        return [('structure', [exp['address'], len(exp['args'])],
+                 [got['address'], len(got['args'])])]
+    for a, g in zip(exp['args'], got['args']):
+        if isinstance(a, dict):
+            if not isinstance(g, (bytes, bytearray)):
+                out.append(('structure', 'blob', repr(g)))
+                continue
+            try:
+                inner = osc10.decode(bytes(g))
+            except osc10.OscError as ex:
+                out.append(('structure', 'blob holding an OSC packet',
+                            str(ex)))
+                continue
+            out += sx_compare(a['blob'], inner, tol, 'blob')
+        elif a == ANY_INT:
+            if type(g) is not int:
+                out.append(('structure', a, g))
+        elif type(a) is not type(g) or a != g:
+            out.append(('structure', a, g))
+    return out
 
 
 def rt_timetag(t, L):
     if L is None or L < 0:
         return osc10.IMMEDIATELY
-    return ntp(t + L)
+    return ntp_sum(t, L)
 
 
 def check_rt(prog, res):
@@ -276,12 +693,22 @@ def check_rt(prog, res):
                             e[4], str(st)))
     task_instants = {e[3] for e in res['trace'] if e[0] in ('res', 'wake')}
     for e in res['trace']:
-        if e[0] == 'send' and e[1] == 'main' and e[3] in sends:
-            # a main-thread send that coincides with a task execution (same
-            # virtual instant, possible only through injected lateness) is
-            # outside the statement: its timetag is a don't-care
+        if e[0] == 'send' and e[1] in prog['actors'] and e[3] in sends:
+            # a send from the main thread (or another plain thread) that
+            # coincides with a task execution (same virtual instant,
+            # possible only through injected lateness) is outside the
+            # statement: its timetag is a don't-care
             sends[e[3]] = dict(sends[e[3]], t=e[4],
                                racing=e[4] in task_instants)
+        elif e[0] == 'send' and e[3] in sends and \
+                sends[e[3]].get('functask'):
+            # a function task woken late: "the current time" may be read as
+            # the time it was scheduled for or as the physical instant
+            sends[e[3]] = dict(sends[e[3]], alt=e[4])
+        elif e[0] == 'send' and e[3] in sends and prog.get('observed_base'):
+            # AppClock drifts by design under late wake-ups: the logical
+            # time is the one the routine itself observes
+            sends[e[3]] = dict(sends[e[3]], t=e[5])
     seen = {}
     for now, hexd in res['sent']:
         try:
@@ -311,37 +738,77 @@ def check_rt(prog, res):
                             'nothing', str(s)))
             continue
         if tag in raised:
-            dis.append(('rt-send-raises', 'sent', raised[tag], str(s)))
+            if s['refused'] is None:
+                continue      # undecided by the statement
+            dis.append(('rt-send-raises' + _via(s), 'sent', raised[tag],
+                        str(s)))
             continue
         if tag not in seen:
             dis.append(('rt-not-sent', 'sent', 'missing', str(s)))
             continue
         now, pkt = seen[tag]
-        where = 'routine' if s['in_routine'] else 'outside'
-        if s['kind'] == 'sendm':
+        where = 'functask' if s.get('functask') else \
+            'routine' if s['in_routine'] else 'outside'
+        if s['kind'] == 'sendm' or s.get('via') == 'msg':
             if pkt['type'] != 'message':
                 dis.append(('rt-message-wrapped', 'message', pkt['type'], ''))
-            continue
-        if pkt['type'] != 'bundle':
+                continue
+            if s['kind'] == 'sendm':
+                continue
+        elif pkt['type'] != 'bundle':
             dis.append(('rt-bundle-not-bundle', 'bundle', pkt['type'], ''))
             continue
         if s.get('racing'):
             continue
-        want = rt_timetag(s['t'], s['L'])
-        if abs(pkt['timetag'] - want) > 2:
-            kind = 'immediately' if want == 1 else 'logical-plus-latency'
-            dis.append((f'rt-timetag-{kind}-{where}', want, pkt['timetag'],
-                        f'{s}; physical send instant {now}; difference '
-                        f'{(pkt["timetag"] - want) / 2 ** 32} s'))
-        if s['kind'] == 'sendb':
-            inner = [e for e in pkt['elements'] if e['type'] == 'bundle']
-            if len(inner) != 1:
-                dis.append(('rt-nested-structure', 1, len(inner), str(s)))
+        cands = [_rt_content(s, pkt, s['t'], where, now)]
+        if 'alt' in s and cands[0]:
+            cands.append(_rt_content(s, pkt, s['alt'], where, now))
+        dis += min(cands, key=len)
+    return dis
+
+
+def _via(s):
+    """Kind suffix for sends through another entry point than send_bundle /
+    send_msg."""
+    return '-' + s['via'] if s.get('via') in ('clumped', 'bind', 'sync') \
+        else ''
+
+
+def _rt_content(s, pkt, t, where, now):
+    """Disagreements of one decoded datagram with send s stamped from t."""
+    dis = []
+    if s['kind'] == 'sx':
+        tmpl = s['b'][1] if s['via'] == 'msg' else s['b']
+        if s['via'] == 'sync':
+            tmpl = tmpl + [['/sync', ANY_INT]]
+        exp = sx_struct(tmpl, lambda L: rt_timetag(t, L))
+        for what, want, got in sx_compare(exp, pkt, 2):
+            if what == 'structure':
+                dis.append(('rt-sx-structure', want, got, str(s)))
+            elif what == 'top':
+                kind = 'immediately' if want == 1 else 'logical-plus-latency'
+                dis.append((f'rt-timetag-{kind}-{where}', want, got,
+                            f'{s}; physical send instant {now}; difference '
+                            f'{(got - want) / 2 ** 32} s'))
             else:
-                w2 = rt_timetag(s['t'], s['L2'])
-                if abs(inner[0]['timetag'] - w2) > 2:
-                    dis.append((f'rt-nested-timetag-{where}', w2,
-                                inner[0]['timetag'], str(s)))
+                dis.append((f'rt-{what}-timetag-{where}', want, got,
+                            f'{s}; difference {(got - want) / 2 ** 32} s'))
+        return dis
+    want = rt_timetag(t, s['L'])
+    if abs(pkt['timetag'] - want) > 2:
+        kind = 'immediately' if want == 1 else 'logical-plus-latency'
+        dis.append((f'rt-timetag-{kind}-{where}', want, pkt['timetag'],
+                    f'{s}; physical send instant {now}; difference '
+                    f'{(pkt["timetag"] - want) / 2 ** 32} s'))
+    if s['kind'] == 'sendb':
+        inner = [e for e in pkt['elements'] if e['type'] == 'bundle']
+        if len(inner) != 1:
+            dis.append(('rt-nested-structure', 1, len(inner), str(s)))
+        else:
+            w2 = rt_timetag(t, s['L2'])
+            if abs(inner[0]['timetag'] - w2) > 2:
+                dis.append((f'rt-nested-timetag-{where}', w2,
+                            inner[0]['timetag'], str(s)))
     return dis
 
 
@@ -359,6 +826,8 @@ def check_nrt(prog, res):
     for s in sends:
         perkey.setdefault((s['who'], s['tag']), []).append(s)
     exp = []
+    raised_tags = {e[2][-1] for e in res['trace'] if e[0] == 'raises'
+                   and e[2][0] in SENDOPS}
     for i, (who, tag) in enumerate(order):
         q = perkey.get((who, tag))
         s = q.pop(0) if q else None
@@ -368,19 +837,21 @@ def check_nrt(prog, res):
             continue
         if s['refused']:
             continue
-        L = s['L']
-        base = s['t'] if s['in_routine'] else 0.0
-        t = base + (0.0 if (L is None or L < 0) else L)
-        if s['kind'] == 'sendm':
-            t = base
-        exp.append((t, i, tag, s))
+        if s['refused'] is None and tag in raised_tags:
+            continue          # undecided by the statement
+        if tag in raised_tags and not prog.get('dup'):
+            continue          # reported below as nrt-send-raises
+        exp.append((entry_time(s), i, tag, s))
     exp.sort(key=lambda x: (x[0], x[1]))
     score = res['score']
     if not score or score[0][1][0] != '/g_new':
         dis.append(('nrt-score-head', '/g_new first', score[:1], ''))
-    body = score[1:-1]
-    got = [(b[0], b[1][1] if len(b) > 1 and len(b[1]) > 1 else None)
-           for b in body]
+    # user bundles: everything after the root node except the tail marker
+    # (whose place is checked below)
+    body_idx = [i for i in range(1, len(score))
+                if score[i][1][0] != '/c_set']
+    body = [score[i] for i in body_idx]
+    got = [(b[0], _entry_tag(b)) for b in body]
     want = [(t, tag) for t, _, tag, _ in exp]
     if got != want:
         kind = 'nrt-score-times' if sorted(g[1] for g in got) == \
@@ -397,15 +868,41 @@ def check_nrt(prog, res):
             if len(inner) != 1 or inner[0][0] != want2:
                 dis.append(('nrt-nested-time', want2,
                             inner[0][0] if inner else None, str(s)))
+        elif s['kind'] == 'sx':
+            base = s['t'] if s['in_routine'] else 0.0
+            want_b = sx_list(s['b'], base, s['via'])
+            diff = _list_diff(want_b, b, top=True)
+            if diff:
+                dis.append((f'nrt-sx-{diff}', want_b, b, str(s)))
     # tail marker: last entry, at the last instant + tail
     last = score[-1]
+    tail = prog.get('tail', 0.5)
+    t_end = expected_end(prog)
     if last[1][0] != '/c_set':
-        dis.append(('nrt-tail-marker', '/c_set last', last, ''))
+        marks = [i for i, b in enumerate(score) if b[1][0] == '/c_set']
+        if len(marks) == 1 and score[marks[0]][0] == t_end + tail and \
+                all(b[0] > t_end + tail for b in score[marks[0] + 1:]):
+            # the marker is where "last instant + tail" puts it, but
+            # bundles whose latency reaches beyond it follow it
+            dis.append(('nrt-tail-marker-before-late-bundle', '/c_set last',
+                        score[marks[0]:], f'last instant {t_end}, tail '
+                        f'{tail}'))
+        else:
+            dis.append(('nrt-tail-marker', '/c_set last', last, ''))
     elif any(last[0] < b[0] for b in score):
         dis.append(('nrt-tail-before-entries', '>= all', last[0], ''))
+    elif all(t <= t_end for t, _, _, _ in exp) and last[0] != t_end + tail:
+        # nothing is stamped later than the last instant of the run: the
+        # marker is at exactly that instant plus the tail time
+        dis.append(('nrt-tail-time', t_end + tail, last[0],
+                    f'last instant {t_end}, tail {tail}'))
     # raw form = concatenation of length-prefixed encodings of the list
+    bases = {}
+    for (t, _, tag, s), i in zip(exp, body_idx):
+        bases[i] = s['t'] if s['in_routine'] else 0.0
     try:
-        enc = b''.join(_enc_entry(b) for b in score)
+        enc = b''.join(_enc_entry(b, bases.get(i))
+                       for i, b in enumerate(score))
         if enc.hex() != res['raw']:
             dis.append(('nrt-raw-differs-from-list', enc.hex()[:200],
                         res['raw'][:200], ''))
@@ -416,11 +913,11 @@ def check_nrt(prog, res):
             dis.append(('program-bundle-list-altered', 'unchanged', e[4],
                         str(e[2])))
             continue
-        if e[0] == 'raises' and e[2][0] in ('send', 'sendm', 'sendb',
-                                           'sendbo'):
+        if e[0] == 'raises' and e[2][0] in SENDOPS:
             s = bytag.get(e[2][-1])
-            if s is not None and not s['refused']:
-                dis.append(('nrt-send-raises', 'accepted', e[3:], str(s)))
+            if s is not None and s['refused'] is False:
+                dis.append(('nrt-send-raises' + _via(s), 'accepted', e[3:],
+                            str(s)))
     refused_in_score = [tag for _, tag in got
                         if tag in bytag and bytag[tag]['refused']]
     if refused_in_score:
@@ -429,15 +926,82 @@ def check_nrt(prog, res):
     return dis
 
 
-def _enc_entry(b):
+def _enc_entry(b, base=None):
+    """Length-prefixed encoding of one score list entry.  `base` (the send
+    instant of the entry, when it is known) is only needed for lists inside
+    messages: they travel as blobs, and the list keeps a bundle in there as
+    the program wrote it (latency relative to the send instant)."""
     def struct_of(x):
         if isinstance(x[0], str):
-            return {'type': 'message', 'address': x[0],
-                    'args': list(x[1:])}
+            args = [osc10.encode(blob_of(a))
+                    if isinstance(a, list) and a and base is not None else a
+                    for a in x[1:]]
+            return {'type': 'message', 'address': x[0], 'args': args}
         return {'type': 'bundle', 'timetag': int(x[0] * 2 ** 32),
                 'elements': [struct_of(e) for e in x[1:]]}
+
+    def blob_of(a):
+        if isinstance(a[0], str):
+            return struct_of(a)
+        L = 0.0 if is_imm(a[0]) else a[0]
+        return {'type': 'bundle', 'timetag': int((L + base) * 2 ** 32),
+                'elements': [blob_of(e) for e in a[1:]]}
     raw = osc10.encode(struct_of(b))
     return struct.pack('>i', len(raw)) + raw
+
+
+def entry_time(s):
+    """Score time of an accepted send (NRT): logical time + latency inside
+    routines, absolute from zero outside; messages at the current time."""
+    base = s['t'] if s['in_routine'] else 0.0
+    if s['kind'] == 'sendm' or s.get('via') == 'msg':
+        return base
+    return base + (0.0 if is_imm(s['L']) else s['L'])
+
+
+def _entry_tag(b):
+    """First argument of the first message of a score entry."""
+    for e in b[1:]:
+        if isinstance(e[0], str):
+            return e[1] if len(e) > 1 else None
+        return _entry_tag(e)
+    return None
+
+
+def sx_list(b, base, via='bundle'):
+    """Score list form of a template: nested bundles at absolute times,
+    messages as the program wrote them."""
+    if via == 'msg':
+        return [base, copy.deepcopy(b[1])]
+    out = [base + (0.0 if is_imm(b[0]) else b[0])]
+    for e in b[1:]:
+        out.append(copy.deepcopy(e) if isinstance(e[0], str)
+                   else sx_list(e, base))
+    return out
+
+
+def _list_diff(want, got, top=False):
+    """'' or what differs between two score list entries; lists inside
+    messages are compared as the program wrote them only in length (how the
+    list shows a blob is not decided by the statement)."""
+    if not isinstance(got, list) or len(want) != len(got):
+        return 'entry-structure'
+    if isinstance(want[0], str):
+        for a, g in zip(want, got):
+            if isinstance(a, list):
+                continue
+            if type(a) is not type(g) or a != g:
+                return 'entry-structure'
+        return ''
+    if isinstance(got[0], bool) or not isinstance(got[0], (int, float)):
+        return 'entry-structure'
+    if want[0] != got[0]:
+        return 'time' if top else 'nested-time'
+    for a, g in zip(want[1:], got[1:]):
+        d = _list_diff(a, g)
+        if d:
+            return d
+    return ''
 
 
 # ---------------------------------------------------------------------------
@@ -447,8 +1011,18 @@ def _enc_entry(b):
 def recv_programs():
     out = []
     for at in (0.125, 0.5):
-        for tt in ('immediate', 'msg', 0.25, 1.0, -0.5):
-            if tt == 'msg':
+        for tt in ('immediate', 'msg', 0.25, 1.0, -0.5, 'deep'):
+            if tt == 'deep':
+                # three levels, later and later
+                data = osc10.encode_bundle(ntp(at + 0.25), [
+                    {'type': 'message', 'address': '/in', 'args': [7]},
+                    {'type': 'bundle', 'timetag': ntp(at + 0.5),
+                     'elements': [
+                         {'type': 'message', 'address': '/in2', 'args': [8]},
+                         {'type': 'bundle', 'timetag': ntp(at + 1.0),
+                          'elements': [{'type': 'message', 'address': '/in3',
+                                        'args': [9]}]}]}])
+            elif tt == 'msg':
                 data = osc10.encode_message('/in', [7])
             elif tt == 'immediate':
                 data = osc10.encode_bundle(1, [
@@ -476,6 +1050,9 @@ def check_recv(prog, res):
     got = [e for e in res['trace'] if e[0] == 'recv']
     if tt in ('msg', 'immediate'):
         want = [(['/in', 7], at)]
+    elif tt == 'deep':
+        want = [(['/in', 7], at + 0.25), (['/in2', 8], at + 0.5),
+                (['/in3', 9], at + 1.0)]
     else:
         want = [(['/in', 7], at + tt), (['/in2', 8], at + tt + 0.25)]
     have = [(e[1], e[2]) for e in got]
@@ -489,18 +1066,137 @@ def check_recv(prog, res):
 
 
 # ---------------------------------------------------------------------------
+# Interpreter extension (mc/rtprog.py is shared and stays as it is): the
+# general send statement ['sx', via, template, tag] and function tasks that
+# send ('sends': {call index: [statements]}).
+# ---------------------------------------------------------------------------
+
+_RUN7 = None
+
+
+def _run_class():
+    global _RUN7
+    if _RUN7 is not None:
+        return _RUN7
+    from mc import rtprog
+
+    class Run7(rtprog.Run):
+        def _func(self, fid, spec):
+            f = super()._func(fid, spec)
+            sends = spec.get('sends')
+            if not sends or spec.get('kind') == 'awakeable':
+                return f
+            run = self
+
+            def g(_, clock):
+                k = run.calls.get(fid, 0)
+                r = f(_, clock)
+                for st in sends.get(str(k), []):
+                    run.do(st, fid, clock)
+                return r
+            g.__qualname__ = fid
+            return g
+
+        def do(self, st, who, clock=None):
+            if st[0] != 'sx':
+                return super().do(st, who, clock)
+            from sc3.base.main import main
+            via, tag = st[1], st[3]
+            self.ev('send', who, 'sx', tag, self.now(),
+                    main.current_tt._seconds)
+            try:
+                data = copy.deepcopy(st[2])    # fresh lists for every send
+                addr = self._addr()
+                if via == 'bundle':
+                    addr.send_bundle(*data)
+                elif via == 'clumped':
+                    addr.send_clumped_bundles(*data)
+                elif via == 'msg':
+                    addr.send_msg(*data[1])
+                elif via == 'bind':
+                    # Server.bind(): messages collected and sent as one
+                    # bundle with the server's latency
+                    from sc3.synth.server import Server
+                    srv = Server.default
+                    old = srv.latency
+                    srv.latency = data[0]
+                    try:
+                        with srv.bind():
+                            for m in data[1:]:
+                                srv.addr.send_msg(*m)
+                    finally:
+                        srv.latency = old
+                elif via == 'sync':
+                    # NetAddr.sync(latency=, elements=) as a routine uses
+                    # it: the first step sends elements + ['/sync', id] in
+                    # one bundle and queues the routine on a condition
+                    # (private, dropped here); the responder it registers
+                    # is removed again
+                    from sc3.base.responders import OscFunc
+                    before = set(OscFunc._all_func_proxies)
+                    gen = addr.sync(None, data[0], data[1:])
+                    try:
+                        next(gen)
+                    finally:
+                        gen.close()
+                        for pr in set(OscFunc._all_func_proxies) - before:
+                            pr.free()
+                else:
+                    raise ValueError(f'unknown via {via}')
+            except Exception as e:
+                if type(e).__name__ in ('Abort',):
+                    raise
+                self.ev('raises', who, st, type(e).__name__, str(e)[:200])
+                if who in self.routines:
+                    raise
+    _RUN7 = Run7
+    return Run7
+
+
+class _Patched:
+    """rtprog.run_rt / run_nrt with the extended interpreter class."""
+
+    def __enter__(self):
+        from mc import rtprog
+        self.old = rtprog.Run
+        rtprog.Run = _run_class()
+
+    def __exit__(self, *exc):
+        from mc import rtprog
+        rtprog.Run = self.old
+        return False
+
+
+def run_rt(prog, prefix):
+    from mc import rtprog
+    # ids of '/sync' messages come from a process wide counter: restart it,
+    # so that an execution does not depend on the ones before it
+    import itertools
+    import sc3.base.builtins as bi
+    if hasattr(bi, '_uid_counter'):
+        bi._uid_counter = itertools.count()
+    with _Patched():
+        return rtprog.run_rt(prog, prefix)
+
+
+def run_nrt(prog):
+    from mc import rtprog
+    with _Patched():
+        return rtprog.run_nrt(prog, tail=prog.get('tail', 0.5))
+
+
+# ---------------------------------------------------------------------------
 # Workers
 # ---------------------------------------------------------------------------
 
 def work_rt(job):
-    from mc import rtprog
     from mc.engines import schedx
     acc = progenum.Acc(max_samples=1)
     for prog in job['progs']:
         checker = check_recv if prog.get('recv') else check_rt
 
         def run(prefix, prog=prog):
-            return rtprog.run_rt(prog, prefix)
+            return run_rt(prog, prefix)
 
         def on_result(choices, points, res, prog=prog, checker=checker):
             pre, late = schedx.cost_of(points, choices)
@@ -517,10 +1213,9 @@ def work_rt(job):
 
 
 def work_nrt(job):
-    from mc import rtprog
     acc = progenum.Acc(max_samples=2)
     for prog in job['progs']:
-        res = rtprog.run_nrt(prog, tail=0.5)
+        res = run_nrt(prog)
         case = {'mode': 'nrt', 'prog': prog}
         for kind, exp, obs, detail in check_nrt(prog, res):
             acc.violation(kind, case, exp, obs, detail)
@@ -530,20 +1225,58 @@ def work_nrt(job):
 
 
 def replay(job):
-    from mc import rtprog
     case = job['case']
     prog = case['prog']
     if case.get('mode') == 'nrt':
-        res = rtprog.run_nrt(prog, tail=0.5)
+        res = run_nrt(prog)
         dis = check_nrt(prog, res)
         extra = {'score': res['score']}
     else:
-        _, _, res = rtprog.run_rt(prog, case['choices'])
+        _, _, res = run_rt(prog, case['choices'])
         dis = (check_recv if prog.get('recv') else check_rt)(prog, res)
         extra = {'sent': res['sent']}
     return dict(extra, violates=any(d[0] == job['kind'] for d in dis),
                 disagreements=[[d[0], repr(d[1])[:300], repr(d[2])[:300]]
                                for d in dis], trace=res['trace'])
+
+
+# ---------------------------------------------------------------------------
+# Known findings (predicates on the failing case)
+# ---------------------------------------------------------------------------
+
+def _all_stmts(prog):
+    for stmts in prog['routines'].values():
+        yield from stmts
+    yield from prog['actors']['main']
+    for spec in prog.get('funcs', {}).values():
+        for stmts in spec.get('sends', {}).values():
+            yield from stmts
+
+
+def latency_beyond_tail(v):
+    """NRT: an accepted bundle is stamped later than the last instant of the
+    run plus the tail time."""
+    prog = v['case']['prog']
+    if v['case'].get('mode') != 'nrt':
+        return False
+    limit = expected_end(prog) + prog.get('tail', 0.5)
+    return any(s['refused'] is False and entry_time(s) > limit
+               for s in expected_sends(prog, 'nrt'))
+
+
+def clumped_nested_none(v):
+    """send_clumped_bundles with a nested bundle whose latency is None."""
+    def has_none(b):
+        return any(not isinstance(e[0], str) and
+                   (e[0] is None or has_none(e)) for e in b[1:])
+    cl = [st for st in _all_stmts(v['case']['prog'])
+          if st[0] == 'sx' and st[1] == 'clumped']
+    return bool(cl) and all(has_none(st[2]) for st in cl) and \
+        'ValueError' in str(v['observed'])
+
+
+PREDICATES = {'latency_beyond_tail': latency_beyond_tail,
+              'clumped_nested_none': clumped_nested_none}
 
 
 def main(ctx):
@@ -552,8 +1285,20 @@ def main(ctx):
         'sending 1-2 of {send_bundle(L), send_msg, nested bundle (L, L2)} '
         'with L in {None,-1,0,0.25}, separated by yields {0,0.25}; two '
         'routines sending at equal times; every 3-send routine over a 7-statement alphabet and three routines on all clock combinations whose bundles tie in time (quick: a seed-selected 1/8 resp. 1/4 slice); sends from outside routines at '
-        'instants where no task is due; incoming bundles with five timetag '
-        'variants. RT: every schedule with <=P preemptions and <=L late '
+        'instants where no task is due; incoming bundles with six timetag '
+        'variants. Wide families: latencies {-0.25,0.0,1,1.0,0.1,0.2,3.0,'
+        '2^-20,100.0} and 19 (L,L2) pairs; 324 bundle shapes / entry points '
+        '(three levels, two nested siblings, nested first / only, bundles '
+        'inside messages, send_clumped_bundles, Server.bind, NetAddr.sync) '
+        'over L in {None,-1,0,0.25} x L2,L3 in {None,-1,0,0.25,0.5} sent '
+        'from a routine at a logical time > 0 on every clock, from outside '
+        'and from a function task; function tasks (outside routines at a '
+        'time > 0) alone and tying with a routine; inner routines stepped '
+        'with next(); sends from a second plain thread; routines stepped by '
+        'hand or loaded before sending through every entry point; AppClock '
+        'routines in RT (logical time as observed by the routine); NRT tail '
+        'times {0,0.25,2,0.1} (quick: a seed-selected 1/4 slice of the RT '
+        'variants on other clocks / outside / in function tasks). RT: every schedule with <=P preemptions and <=L late '
         'timers, datagrams decoded with mc/oracles/osc10.py; NRT: score list '
         'and raw form. Non-trivial (RT) = execution with >=1 deviation; (NRT) '
         '= score with more than one user bundle.')
@@ -562,14 +1307,26 @@ def main(ctx):
         'exact; 2 LSB (2^-31 s) tolerance is still allowed',
         'sends from the main thread happen only while no task is executing',
         'logical times come from the reference of C05 (mc/checks/c05.py '
-        'expected())']
+        'expected())',
+        'a nested bundle below zero / None inside a parent below zero (both '
+        '"immediately") may be refused or sent; a function task woken late '
+        'may stamp from its scheduled or from the physical time; how '
+        'score.list shows a list inside a message is not checked (its bytes '
+        'in score.raw are)',
+        'the tail marker is required to be last; its time is required to be '
+        'last instant + tail only when no bundle is stamped later than the '
+        'last instant']
     rt = programs(ctx.tier, 'rt') + recv_programs()
     nrt = programs(ctx.tier, 'nrt')
     rt3, nrt3 = programs3('rt'), programs3('nrt')
     if ctx.tier == 'quick':
         rt3 = rt3[core.pick_slice(ctx.seed, 8)::8]
         nrt3 = nrt3[core.pick_slice(ctx.seed, 4)::4]
-    rt, nrt = rt + rt3, nrt + nrt3
+    rtw, rtx = programs_wide('rt')
+    nrtw, nrtx = programs_wide('nrt')
+    if ctx.tier == 'quick':
+        rtx = rtx[core.pick_slice(ctx.seed, 4)::4]
+    rt, nrt = rt + rt3 + rtw + rtx, nrt + nrt3 + nrtw + nrtx
     bounds = [(2, 1)] if ctx.tier == 'quick' else [(3, 2)]
     for mp, ml in bounds:
         jobs = [{'progs': c, 'max_pre': mp, 'max_late': ml}
